@@ -5,6 +5,8 @@
 cd "$(dirname "$0")/.."
 /venv/bin/python harness/extract.py >/dev/null || echo "extract failed (reported by the checks)"
 cd lean
+# each lean process of a proof module needs 0.7-1.8 GB: cap lake's worker threads so a 16 GB machine is enough
+export LEAN_NUM_THREADS=${VERIF_LAKE_THREADS:-4}
 RC=0
 for T in $(cat ../harness/drivers.txt); do
   lake build "$T" >/tmp/verif_setup_$$.log 2>&1 || { echo "setup: target $T failed"; tail -5 /tmp/verif_setup_$$.log; }
